@@ -2,6 +2,8 @@ package main
 
 import (
 	"fmt"
+	"go/types"
+	"regexp"
 	"strings"
 
 	"golang.org/x/tools/go/ssa"
@@ -375,7 +377,100 @@ func ruleR09_3(w *World, r *Report) {
 	r.Check(okClear, "TransactionDatatype.Rollback/replayed operations forgotten", u.Pos(fn.Pos()), "rollbackOps = nil after the capture", "rollbackOps is not cleared once the new rollback point contains them: the next rollback replays them a second time")
 }
 
-var txAbs = rewriter(`operations\.ModelToOperation\([^)]*\)\.\(\*operations\.TransactionOperation\)(#0)?\.GetNumOfOps\(\)`, "N", `len\(\$1\)`, "LEN", `φi`, "I")
+// N: the count announced by the unit's header, whichever decoder produced the *TransactionOperation.
+const txCountRe = `[^\s+\-]*\.\(\*operations\.TransactionOperation\)(#0)?\.GetNumOfOps\(\)`
+
+var txAbs = rewriter(txCountRe, "N", `len\(\$1\)`, "LEN", `φi`, "I")
+
+// decodedCopies: loop-carried slices of fn that are built by appending exactly one element per iteration of a
+// loop over parameter $1 (the received unit decoded ahead of its application); their length is the unit's length.
+func decodedCopies(fn *ssa.Function) []string {
+	var out []string
+	if len(fn.Params) < 2 {
+		return nil
+	}
+	unit := fn.Params[1]
+	forEachInstr(fn, func(in ssa.Instruction) {
+		phi, ok := in.(*ssa.Phi)
+		if !ok || !phiCyclic(phi) {
+			return
+		}
+		if _, isSlice := phi.Type().Underlying().(*types.Slice); !isSlice {
+			return
+		}
+		// the loop of the phi ranges over the unit
+		overUnit := false
+		for _, i2 := range phi.Block().Instrs {
+			if bo, ok := i2.(*ssa.BinOp); ok {
+				if c, ok := bo.Y.(*ssa.Call); ok {
+					if b, ok := c.Call.Value.(*ssa.Builtin); ok && b.Name() == "len" && len(c.Call.Args) == 1 && c.Call.Args[0] == ssa.Value(unit) {
+						overUnit = true
+					}
+				}
+			}
+		}
+		for _, i2 := range phi.Block().Instrs {
+			if _, ok := i2.(*ssa.If); ok && !overUnit {
+				// `for range` over a slice computes len before the loop
+				for _, pin := range fn.Blocks {
+					for _, i3 := range pin.Instrs {
+						if c, ok := i3.(*ssa.Call); ok {
+							if b, ok := c.Call.Value.(*ssa.Builtin); ok && b.Name() == "len" && len(c.Call.Args) == 1 && c.Call.Args[0] == ssa.Value(unit) && pin.Dominates(phi.Block()) {
+								overUnit = true
+							}
+						}
+					}
+				}
+			}
+		}
+		if !overUnit {
+			return
+		}
+		good := true
+		for _, e := range phi.Edges {
+			switch x := e.(type) {
+			case *ssa.MakeSlice:
+			case *ssa.Const:
+			case *ssa.Call:
+				b, ok := x.Call.Value.(*ssa.Builtin)
+				if !ok || b.Name() != "append" || len(x.Call.Args) != 2 || x.Call.Args[0] != ssa.Value(phi) {
+					good = false
+					break
+				}
+				sl, ok := x.Call.Args[1].(*ssa.Slice)
+				if !ok {
+					good = false
+					break
+				}
+				al, ok := sl.X.(*ssa.Alloc)
+				if !ok {
+					good = false
+					break
+				}
+				arr, ok := al.Type().Underlying().(*types.Pointer).Elem().Underlying().(*types.Array)
+				if !ok || arr.Len() != 1 {
+					good = false
+				}
+			default:
+				good = false
+			}
+		}
+		if good {
+			out = append(out, "φ"+phi.Comment)
+		}
+	})
+	return out
+}
+
+// txAbsFor: txAbs with the lengths of fn's decoded copies of the unit read as the unit's length.
+func txAbsFor(fn *ssa.Function) func(string) string {
+	pairs := []string{txCountRe, "N", `len\(\$1\)`, "LEN"}
+	for _, n := range decodedCopies(fn) {
+		pairs = append(pairs, `len\(`+regexp.QuoteMeta(n)+`\)`, "LEN")
+	}
+	pairs = append(pairs, `φi`, "I")
+	return rewriter(pairs...)
+}
 
 // R09.4 a length taken from the wire is checked before it bounds a slice
 func ruleR09_4(w *World, r *Report) {
@@ -451,6 +546,7 @@ func ruleR09_5(w *World, r *Report) {
 		r.Lost("TransactionDatatype.ExecuteRemoteTransactionWithCtx")
 		return
 	}
+	abs := txAbsFor(fn)
 	var begin ssa.CallInstruction
 	for _, c := range callsNamed(fn, "BeginTransaction") {
 		begin = c
@@ -460,7 +556,7 @@ func ruleR09_5(w *World, r *Report) {
 		return
 	}
 	d := deepOfDepth(fn, 1)
-	dpaths, ok := d.paths(d.find(begin.(ssa.Instruction)), txAbs)
+	dpaths, ok := d.paths(d.find(begin.(ssa.Instruction)), abs)
 	r.Check(ok && allLitPathsHaveLin(dpaths, "+LEN-N == 0"), "ExecuteRemoteTransactionWithCtx/count check", u.Pos(begin.Pos()), "len(unit) == announced count before BeginTransaction",
 		fmt.Sprintf("the transaction begins under %v; expected a preceding check len(transaction) == announced NumOfOps (an incomplete unit must be refused as a whole)", linsOf(dpaths)))
 	// every multi-operation unit goes through that check: the apply loop is reached either with
@@ -471,11 +567,11 @@ func ruleR09_5(w *World, r *Report) {
 		for _, p := range ps {
 			single := false
 			for _, l := range p.Lits {
-				if lc, ok := canonLinCmp(l); ok && abstractLin(lc.L, txAbs).String()+" "+lc.Op.String() == "-LEN+1 <" {
+				if lc, ok := canonLinCmp(l); ok && abstractLin(lc.L, abs).String()+" "+lc.Op.String() == "-LEN+1 <" {
 					_ = lc
 				}
 				if lc, ok := canonLinCmp(l); ok {
-					s := linCmp{L: abstractLin(lc.L, txAbs), Op: lc.Op}.String()
+					s := linCmp{L: abstractLin(lc.L, abs), Op: lc.Op}.String()
 					if s == "+LEN-1 <= 0" {
 						single = true
 					}
